@@ -73,6 +73,12 @@ def truth_and_candidate(rng, grid):
                     else:
                         pos[a] = hi - rng.uniform(0.05, 1.4)
                         shift[a] = -(hi - lo)
+        wall_axes = [a for a in range(dim) if not grid.periodic[a]]
+        if wall_axes and rng.random() < 0.3:
+            # a droplet cut by a wall, its centre OUTSIDE the box along a non-periodic axis (a valid candidate: nothing confines centres to the box)
+            a = rng.choice(wall_axes)
+            lo, hi = grid.axes_bounds[a]
+            pos[a] = lo - rng.uniform(0.1, 1.6) if rng.random() < 0.5 else hi + rng.uniform(0.1, 1.6)
         dpos = pos + shift + np.array([rng.uniform(-1.5, 1.5) for _ in range(dim)])
     elif g == "CylindricalSymGrid":
         if grid.periodic[1]:
@@ -255,6 +261,8 @@ def run_cases(ck: Check, n: int):
             ck.count("wrap_checked")
             if not (lo <= cand0.position[ax] < lo + L):
                 ck.count("candidate_outside_box_on_periodic_axis")
+        if type(grid).__name__ == "CartesianGrid" and any((not grid.periodic[a]) and not (b[0] <= cand0.position[a] <= b[1]) for a, b in enumerate(grid.axes_bounds)):
+            ck.count("candidate_outside_box_on_wall_axis")
             if not (lo <= out.position[ax] < lo + L + 1e-12):
                 ck.fail(f"position {out.position} not wrapped into the box along periodic axis {ax}", {**sig, "check": "refine_wrap_in_box"}, case)
         if "cost" in rec:
